@@ -165,7 +165,11 @@ impl AsyncFileSystem for AsyncOverlayFS {
         let write_path = self.write_path(path)?;
         if !write_path.exists().await? {
             self.ensure_has_parent(path).await?;
-            self.read_path(path).await?.copy_file(&write_path).await?;
+            let read_path = self.read_path(path).await?;
+            if !read_path.is_file().await? {
+                return Err(VfsErrorKind::Other("Not a file".into()).into());
+            }
+            read_path.copy_file(&write_path).await?;
         }
         write_path.append_file().await
     }
